@@ -195,6 +195,8 @@ pub fn leaf_rotation() -> Vec<Ast> {
         // at a byte offset that differs from its character index
         Ast::Str("\u{e9}\u{20ac} \u{1f600}".into()),
         Ast::Ref("\u{e9}".into()),
+        // a name that is one character Unicode calls whitespace and the language does not
+        Ast::Ref("\u{a0}".into()),
     ]
 }
 
